@@ -43,7 +43,10 @@ describe('C11',
          '_pre_update once -> every _update_from_submat -> _post_update, both split matrices updated; (prod) '
          '_prod fwd/rev and mask handling; (apply) fwd/rev mirror of the 12 matrix-free Subjac._apply_* '
          'functions; (split-apply) which vector each split matrix multiplies per mode and the input mask in '
-         'fwd/rev; (closed-world, thorough) no Matrix/Subjac subclass outside the analysed ones.  Two clauses '
+         'fwd/rev; (coo-info) abstract evaluation of every Subjac.as_coo_info for the four (full, src_indices) cases: '
+         'rows = local rows + row_slice.start iff full, cols = src_indices mapping first, then + col_slice.start iff '
+         'full, once; (loopdef) no loop-carried stale factor/src/src_inds_list reaches a sub-jacobian constructor in '
+         '_get_split_subjacs; (closed-world, thorough) no Matrix/Subjac subclass outside the analysed ones.  Two clauses '
          'fired on the tree before its last two fix commits and were confirmed at run time as genuine defects: DenseMatrix scales the '
          'whole (of, source) block by subjac.factor (factor-region) and COOSubjac.set_dtype converts a scipy '
          'COO value as if it were an ndarray (dtype-slot).  Does not decide numerical values, scipy internals, or that get_coo_data_size() equals '
@@ -2326,6 +2329,293 @@ def split_apply(repo, out):
             out.ok(fn, fn.node, f'{ident[0]}: {ident[1]}._prod({expect[ident][0]}) -> {expect[ident][1]}')
 
 
+# =========================================================================== C11.coo-info
+class _U:
+    """Unknown abstract value."""
+    def __repr__(self):
+        return '?'
+
+
+UNK = _U()
+
+
+class Off:
+    """Scalar offset: integer combination of R = row_slice.start and C = col_slice.start."""
+    def __init__(self, t=None):
+        self.t = {k: v for k, v in (t or {}).items() if v}
+
+    def add(self, o, sign=1):
+        t = dict(self.t)
+        for k, v in o.t.items():
+            t[k] = t.get(k, 0) + sign * v
+        return Off(t)
+
+    def __repr__(self):
+        return ' + '.join(f'{v}*{k}' if v != 1 else k for k, v in sorted(self.t.items())) or '0'
+
+
+class Idx:
+    """Index array: kind local (0-based position inside the sub-jacobian) or src (source entries selected by
+    src_indices), role r/c/None, accumulated offset, and whether src mapping happened after an offset."""
+    def __init__(self, kind, role=None, off=None, late_map=False):
+        self.kind, self.role, self.off, self.late_map = kind, role, off or Off(), late_map
+
+    def __repr__(self):
+        return f'{self.kind}[{self.role}]+{self.off}'
+
+
+_PASS_FUNCS = {'repeat', 'tile', 'asarray', 'array', 'ascontiguousarray', 'ravel', 'reshape', 'copy', 'astype',
+               'flatten', 'atleast_1d'}
+_OFFNAMES = {'self.row_slice.start': 'R', 'self.row_slice.stop': 'R', 'self.col_slice.start': 'C',
+             'self.col_slice.stop': 'C'}
+
+
+def _aeval(e, env, flags):
+    """Abstract value of an index expression inside as_coo_info."""
+    if isinstance(e, ast.Constant):
+        return Off() if isinstance(e.value, (int, float)) and not isinstance(e.value, bool) else UNK
+    p = astx.path(e)
+    if p in _OFFNAMES:
+        return Off({_OFFNAMES[p]: 1})
+    if p == 'self.src_indices':
+        return Idx('src', 'c')
+    if isinstance(e, ast.Name):
+        return env.get(e.id, UNK)
+    if isinstance(e, ast.Attribute):
+        if e.attr in ('row', 'rows'):
+            return Idx('local', 'r')
+        if e.attr in ('col', 'cols'):
+            return Idx('local', 'c')
+        if e.attr == 'T':
+            return _aeval(e.value, env, flags)
+        return UNK
+    if isinstance(e, ast.IfExp):
+        t = _atest(e.test, flags)
+        if t is None:
+            a, b = _aeval(e.body, env, flags), _aeval(e.orelse, env, flags)
+            return a if repr(a) == repr(b) and a is not UNK else UNK
+        return _aeval(e.body if t else e.orelse, env, flags)
+    if isinstance(e, ast.Subscript):
+        base = _aeval(e.value, env, flags)
+        if isinstance(base, Idx) and base.kind == 'src' and not base.off.t:
+            i = _aeval(e.slice, env, flags)
+            if isinstance(i, Idx) and i.kind == 'local':
+                return Idx('src', 'c', Off(), late_map=bool(i.off.t))
+        return UNK
+    if isinstance(e, ast.BinOp) and isinstance(e.op, (ast.Add, ast.Sub)):
+        a, b = _aeval(e.left, env, flags), _aeval(e.right, env, flags)
+        sign = 1 if isinstance(e.op, ast.Add) else -1
+        if isinstance(a, Off) and isinstance(b, Off):
+            return a.add(b, sign)
+        if isinstance(a, Idx) and isinstance(b, Off):
+            return Idx(a.kind, a.role, a.off.add(b, sign), a.late_map)
+        if isinstance(b, Idx) and isinstance(a, Off) and sign == 1:
+            return Idx(b.kind, b.role, b.off.add(a), b.late_map)
+        return UNK
+    if isinstance(e, ast.Call):
+        nm = astx.callee_attr(e)
+        if nm in ('arange', 'range') and e.args:
+            if len(e.args) == 1:
+                return Idx('local')
+            st = _aeval(e.args[0], env, flags)
+            return Idx('local', None, st) if isinstance(st, Off) else UNK
+        if nm in _PASS_FUNCS:
+            recv = astx.receiver(e)
+            if recv is not None and astx.path(recv) not in ('np', 'numpy'):
+                return _aeval(recv, env, flags)
+            return _aeval(e.args[0], env, flags) if e.args else UNK
+    return UNK
+
+
+def _atest(t, flags):
+    """Truth of a test under the flags {'full': bool, 'src': bool (src_indices present)}; None = unknown."""
+    pol = True
+    while isinstance(t, ast.UnaryOp) and isinstance(t.op, ast.Not):
+        t, pol = t.operand, not pol
+    if isinstance(t, ast.Name) and t.id == flags['_full']:
+        return flags['full'] == pol
+    nt = is_none_test(t)
+    if nt and astx.path(nt[0]) == 'self.src_indices':
+        return (flags['src'] != nt[1]) == pol
+    return None
+
+
+def _coo_info_returns(fn, flags):
+    """Abstract (rows, cols) of every return reachable under the flags, or raises Unknown."""
+    g = cfgm.build(fn)
+    results = []
+    budget = [4000]
+
+    def bind(tgt, val, env):
+        if isinstance(tgt, ast.Name):
+            env[tgt.id] = val
+        elif isinstance(tgt, (ast.Tuple, ast.List)):
+            for x in tgt.elts:
+                bind(x, UNK, env)
+
+    def step(n, env, seen):
+        budget[0] -= 1
+        if budget[0] < 0:
+            raise Unknown(fn.node, 'too many paths')
+        if n is g.exit:
+            return
+        env = dict(env)
+        nxt = None
+        if n.kind == 'test':
+            t = _atest(n.ast.test, flags)
+            nxt = [m for m, lab in g.succ[n] if lab in ('true', 'false') and (t is None or (lab == 'true') == t)]
+        elif n.kind in ('iter',) or (n.kind == 'test' and isinstance(n.ast, ast.While)):
+            raise Unknown(n.ast, 'loop in as_coo_info')
+        elif n.kind == 'stmt':
+            st = n.ast
+            if isinstance(st, ast.Return):
+                v = st.value
+                if not (isinstance(v, ast.Tuple) and len(v.elts) == 3):
+                    raise Unknown(st, 'return value is not a (data, rows, cols) tuple')
+                results.append((st, _aeval(v.elts[1], env, flags), _aeval(v.elts[2], env, flags)))
+                return
+            if isinstance(st, ast.Assign):
+                if len(st.targets) == 1 and isinstance(st.targets[0], ast.Tuple) and isinstance(st.value, ast.Tuple) \
+                        and len(st.targets[0].elts) == len(st.value.elts):
+                    vals = [_aeval(x, env, flags) for x in st.value.elts]
+                    for t_, v_ in zip(st.targets[0].elts, vals):
+                        bind(t_, v_, env)
+                else:
+                    val = _aeval(st.value, env, flags)
+                    for t_ in st.targets:
+                        bind(t_, val, env)
+            elif isinstance(st, ast.AugAssign) and isinstance(st.target, ast.Name):
+                if isinstance(st.op, (ast.Add, ast.Sub)):
+                    env[st.target.id] = _aeval(ast.BinOp(left=st.target, op=st.op, right=st.value), env, flags)
+                else:
+                    env[st.target.id] = UNK
+        if nxt is None:
+            nxt = [m for m, lab in g.succ[n] if lab != 'exc']
+        for m in nxt:
+            if (m, id(n)) in seen:
+                raise Unknown(n.ast, 'loop in as_coo_info')
+            step(m, env, seen | {(m, id(n))})
+    step(g.entry, {}, frozenset())
+    return results
+
+
+@rule('C11.coo-info', floor=5)
+def coo_info(repo, out):
+    """Every as_coo_info: rows = local rows (+ row_slice.start iff full); cols = src_indices[local cols] if
+    src_indices is given else local cols, then (+ col_slice.start iff full) -- same composition in all classes."""
+    m = repo.module(SUBJAC)
+    fns = [f for q, f in m.funcs.items() if q.endswith('.as_coo_info')]
+    for fn in fns:
+        a = fn.node.args
+        names = [x.arg for x in a.posonlyargs + a.args + a.kwonlyargs]
+        if 'full' not in names:
+            out.unsure(fn, fn.node, 'as_coo_info has no `full` parameter')
+            continue
+        problems = {}
+        unsure = None
+        n_ret = 0
+        for full, src in ((True, True), (True, False), (False, True), (False, False)):
+            flags = {'full': full, 'src': src, '_full': 'full'}
+            try:
+                rets = _coo_info_returns(fn, flags)
+            except Unknown as u:
+                unsure = (u.node, u.why or astx.src(u.node))
+                break
+            if not rets:
+                unsure = (fn.node, f'no return reachable for full={full}, src_indices {"given" if src else "None"}')
+                break
+            case = f'full={full}, src_indices {"given" if src else "None"}'
+            for st, rows, cols in rets:
+                n_ret += 1
+                if not isinstance(rows, Idx) or not isinstance(cols, Idx):
+                    unsure = (st, f'rows/cols expression not understood for {case} (rows={rows}, cols={cols})')
+                    continue
+                want_r = {'R': 1} if full else {}
+                want_c = {'C': 1} if full else {}
+                if rows.kind != 'local' or rows.role == 'c':
+                    problems.setdefault('rows-source', (st, f'for {case} the returned rows are {rows}, not the local row '
+                                                        'indices of the sub-jacobian'))
+                elif rows.off.t != want_r:
+                    problems.setdefault('rows-offset', (st, f'for {case} the returned rows carry the offset {rows.off}; '
+                                                        f'they must carry {Off(want_r)} (row_slice.start exactly once iff '
+                                                        'full)'))
+                if cols.role == 'r':
+                    problems.setdefault('cols-source', (st, f'for {case} the returned cols are derived from row indices'))
+                elif cols.kind != ('src' if src else 'local'):
+                    problems.setdefault('cols-src-indices', (st, f'for {case} the returned cols are '
+                                        + ('not mapped through self.src_indices: the sub-jacobian of an input connected '
+                                           'with src_indices lands in the columns of the first source entries'
+                                           if src else 'mapped through self.src_indices although it is None')))
+                elif cols.late_map:
+                    problems.setdefault('cols-map-order', (st, f'for {case} self.src_indices is indexed with columns that '
+                                        'already carry an offset: the mapping must come first, then + col_slice.start'))
+                elif cols.off.t != want_c:
+                    problems.setdefault('cols-offset', (st, f'for {case} the returned cols carry the offset {cols.off}; they '
+                                        f'must carry {Off(want_c)} (col_slice.start exactly once iff full, also after the '
+                                        'src_indices mapping): with a source that does not start at offset 0 every '
+                                        'assembled format puts this sub-jacobian into the wrong columns'))
+        if unsure is not None and not problems:
+            out.unsure(fn, unsure[0], f'{fn.qualname}: {unsure[1]}')
+            continue
+        for k, (st, why) in problems.items():
+            out.bad(fn, st, f'{fn.qualname}: {why}', key=f'coo-info:{k}')
+        if not problems:
+            out.count('returns_evaluated', n_ret)
+            out.ok(fn, fn.node, f'{fn.qualname}: rows/cols composition agrees with the common contract for the 4 '
+                   f'(full, src_indices) cases ({n_ret} returns evaluated)')
+
+
+# =========================================================================== C11.loopdef
+CTOR_CALLS = ('create_dr_do_subjac', 'create_subjac', '_subjac_from_meta')
+
+
+@rule('C11.loopdef', floor=4)
+def loopdef(repo, out):
+    """_get_split_subjacs: every per-iteration value handed to a sub-jacobian constructor (factor, src,
+    src_inds_list, wrt ...) is (re)defined on every path of the current iteration before the call."""
+    fn = repo.func(JAC, 'SplitJacobian._get_split_subjacs')
+    fa = FA(fn)
+    g = fa.g
+    loops = [st for st in astx.walk_stmts(fn.node.body) if isinstance(st, ast.For) and
+             any(astx.callee_attr(c) in CTOR_CALLS for s2 in astx.walk_stmts(st.body) for c in astx.calls(s2))]
+    if len(loops) != 1:
+        raise AnalysisError(f'{fn.ident}: expected one loop creating sub-jacobians, found {len(loops)}')
+    loop = loops[0]
+    hdr = g.nodes_of(loop)[0]
+    body = set(g.body_nodes(loop))
+    body_entry = [m_ for m_, lab in g.succ[hdr] if lab == 'true']
+    loop_targets = {astx.path(t) for t in astx.assigned_targets(loop)}
+    n_calls = 0
+    for n in sorted(body, key=lambda x: x.id):
+        for c in n.calls():
+            if astx.callee_attr(c) not in CTOR_CALLS or astx.path(astx.receiver(c)) != 'self':
+                continue
+            n_calls += 1
+            used = []
+            for a in list(c.args) + [k.value for k in c.keywords]:
+                for x in astx.walk(a):
+                    if isinstance(x, ast.Name) and x.id not in used:
+                        used.append(x.id)
+            for nm in used:
+                if nm in loop_targets:
+                    continue
+                defs_in = [d for d in body if d.kind in ('stmt', 'iter', 'with') and
+                           nm in {astx.path(t) for t in astx.assigned_targets(d.ast)}]
+                if not defs_in:
+                    continue        # loop-invariant
+                w = g.path(body_entry, [n], avoid=set(defs_in), labels=cfgm.noexc)
+                if w is None:
+                    out.ok(fn, n.ast, f'`{nm}` is defined in the current iteration on every path to '
+                           f'{astx.callee_attr(c)}(...)')
+                else:
+                    out.bad(fn, n.ast, f'`{nm}` is assigned inside the loop ({", ".join(sorted({"L%d" % d.lineno for d in defs_in}))}) '
+                            f'but {astx.callee_attr(c)}(...) can be reached in an iteration without passing any of those '
+                            f'assignments ({g.fmt_path(w)}): the value left over from a previous sub-jacobian (e.g. the unit '
+                            'factor or src_indices of another input) is used for this one', key=f'stale:{nm}')
+    if n_calls == 0:
+        raise AnalysisError(f'{fn.ident}: no sub-jacobian constructor call in the loop')
+
+
 # =========================================================================== self-test
 _SET_DTYPE_HEAD = ("        self._in_view = None\n        self._out_view = None\n        self._res_view = None\n\n"
                    "        if dtype.kind == 'f':")
@@ -2584,7 +2874,104 @@ selftest(
     Mutant('rev-drdi-result-to-residuals', JAC, '                    d_inputs += arr', '                    dresids += arr',
            'C11.split-apply'),
 
+    # ---- coo-info
+    Mutant('seed2-diagonal-src-indices-without-offset', SUBJAC,
+           '            if self.src_indices is None:\n'
+           '                cols = np.arange(self.col_slice.start, self.col_slice.stop)\n'
+           '            else:\n'
+           '                cols = self.src_indices + self.col_slice.start\n'
+           '        else:\n'
+           '            rows = cols = np.arange(self.nrows)\n'
+           '            if self.src_indices is not None:\n'
+           '                cols = self.src_indices\n',
+           '            cols = np.arange(self.col_slice.start, self.col_slice.stop)\n'
+           '        else:\n'
+           '            rows = cols = np.arange(self.nrows)\n'
+           '\n'
+           '        if self.src_indices is not None:\n'
+           '            cols = self.src_indices\n', 'C11.coo-info'),
+    Mutant('sparse-offset-before-src-mapping', SUBJAC,
+           '        if self.src_indices is not None:\n'
+           '            col = self.src_indices[col]\n'
+           '\n'
+           '        if full:\n'
+           '            row = row + self.row_slice.start\n'
+           '            col = col + self.col_slice.start\n',
+           '        if full:\n'
+           '            row = row + self.row_slice.start\n'
+           '            col = col + self.col_slice.start\n'
+           '\n'
+           '        if self.src_indices is not None:\n'
+           '            col = self.src_indices[col]\n', 'C11.coo-info'),
+    Mutant('sparse-rows-offset-by-col-start', SUBJAC, '            row = row + self.row_slice.start',
+           '            row = row + self.col_slice.start', 'C11.coo-info'),
+    Mutant('dense-col-offset-from-row-slice', SUBJAC, '        coffset = self.col_slice.start if full else 0',
+           '        coffset = self.row_slice.start if full else 0', 'C11.coo-info'),
+    Mutant('dense-src-indices-never-offset', SUBJAC,
+           '            if full:\n                colrange = colrange + coffset\n', '', 'C11.coo-info'),
+    Mutant('omcoo-cols-offset-twice', SUBJAC,
+           '            rows = rows + self.row_slice.start\n            cols = cols + self.col_slice.start\n\n        return data, rows, cols',
+           '            rows = rows + self.row_slice.start\n            cols = cols + self.col_slice.start\n'
+           '            cols = cols + self.col_slice.start\n\n        return data, rows, cols', 'C11.coo-info', nth=1),
+    Mutant('coo-cols-from-rows', SUBJAC,
+           '            rows = rows + self.row_slice.start\n            cols = cols + self.col_slice.start\n\n        return data, rows, cols',
+           '            rows = rows + self.row_slice.start\n            cols = rows + self.col_slice.start\n\n        return data, rows, cols',
+           'C11.coo-info', nth=0),
+    Mutant('coo-src-mapping-dropped', SUBJAC,
+           '            # to source variables and we have to convert columns using src_indices.\n'
+           '            cols = self.src_indices[cols]\n',
+           '            # to source variables and we have to convert columns using src_indices.\n'
+           '            pass\n', 'C11.coo-info', nth=0),
+    Mutant('diagonal-local-branch-offset', SUBJAC, '            rows = cols = np.arange(self.nrows)',
+           '            rows = cols = np.arange(self.col_slice.start, self.col_slice.stop)', 'C11.coo-info'),
+    # ---- loopdef
+    Mutant('seed3-factor-reset-hoisted-out-of-loop', JAC,
+           '            input_slices = self._input_slices\n\n            for abs_key, meta in self._subjacs_info.items():\n'
+           '                wrt = abs_key[1]\n                factor = None\n',
+           '            input_slices = self._input_slices\n            factor = None\n\n'
+           '            for abs_key, meta in self._subjacs_info.items():\n                wrt = abs_key[1]\n', 'C11.loopdef'),
+    Mutant('factor-reset-only-when-units-differ', JAC,
+           '                wrt = abs_key[1]\n                factor = None\n', '                wrt = abs_key[1]\n', 'C11.loopdef',
+           also=[(JAC, '                            if factor == 1.0:\n                                factor = None\n',
+                  '                            if factor == 1.0:\n                                factor = None\n'
+                  '                        elif not in_units:\n                            factor = None\n')]),
+    Mutant('src-inds-list-only-for-unit-conversions', JAC,
+           "                        src_inds_list = abs2meta_in[wrt]['src_inds_list']\n\n",
+           "                        if in_units != out_units:\n"
+           "                            src_inds_list = abs2meta_in[wrt]['src_inds_list']\n\n", 'C11.loopdef',
+           also=[(JAC, '            input_slices = self._input_slices\n\n            for abs_key, meta',
+                  '            input_slices = self._input_slices\n            src_inds_list = None\n\n            for abs_key, meta')]),
+
     # ---- twins
+    Twin('twin-factor-reset-moved-into-branch', JAC,
+         '                wrt = abs_key[1]\n                factor = None\n', '                wrt = abs_key[1]\n',
+         also=[(JAC, '                        if in_units and out_units and in_units != out_units:\n',
+                '                        factor = None\n                        if in_units and out_units and in_units != out_units:\n')]),
+    Twin('twin-factor-else-none', JAC,
+         '                wrt = abs_key[1]\n                factor = None\n', '                wrt = abs_key[1]\n',
+         also=[(JAC, '                            if factor == 1.0:\n                                factor = None\n',
+                '                            if factor == 1.0:\n                                factor = None\n'
+                '                        else:\n                            factor = None\n')]),
+    Twin('twin-diagonal-coo-info-sparse-style', SUBJAC,
+         '        if full:\n'
+         '            rows = np.arange(self.row_slice.start, self.row_slice.stop)\n'
+         '            if self.src_indices is None:\n'
+         '                cols = np.arange(self.col_slice.start, self.col_slice.stop)\n'
+         '            else:\n'
+         '                cols = self.src_indices + self.col_slice.start\n'
+         '        else:\n'
+         '            rows = cols = np.arange(self.nrows)\n'
+         '            if self.src_indices is not None:\n'
+         '                cols = self.src_indices\n',
+         '        rows = cols = np.arange(self.nrows)\n'
+         '        if self.src_indices is not None:\n'
+         '            cols = self.src_indices\n'
+         '        if full:\n'
+         '            rows = rows + self.row_slice.start\n'
+         '            cols = cols + self.col_slice.start\n'),
+    Twin('twin-dense-coffset-unconditional', SUBJAC,
+         '            if full:\n                colrange = colrange + coffset\n', '            colrange = colrange + coffset\n'),
+    Twin('twin-sparse-offset-commuted', SUBJAC, '            col = col + self.col_slice.start', '            col = self.col_slice.start + col'),
     Twin('twin-csc-rename-index-local', CSC, 'csc_indices', 'positions', nth='all'),
     Twin('twin-csr-flip-dup-branches', CSR,
          '        if self._has_within_subjac_duplicates[subjac.key]:\n'
